@@ -27,7 +27,7 @@ def nested_variable_untyped(c, problems):
 
 def _embedded_exc_messages(j, acc, depth=0):
     if isinstance(j, dict):
-        if "x" in j and "m" in j and depth > 0: acc.add(j["m"])
+        if "x" in j and "m" in j and depth > 0 and j["m"]: acc.add(j["m"])      # (the model reports every non-resolver error with an empty message)
         for v in j.values(): _embedded_exc_messages(v, acc, depth + 1)
     elif isinstance(j, list):
         for v in j: _embedded_exc_messages(v, acc, depth + 1)
